@@ -109,6 +109,18 @@ func (s *V2SessionlessTransport) newV2Session(ctx context.Context, opts *V2Sessi
 		return nil, err
 	}
 
+	// we proposed exactly one algorithm of each kind, so the managed system
+	// must confirm those; anything else (e.g. a weaker algorithm) is not what
+	// the caller asked for
+	if confirmed := (ipmi.CipherSuite{
+		AuthenticationAlgorithm:  openSessionRsp.AuthenticationPayload.Algorithm,
+		IntegrityAlgorithm:       openSessionRsp.IntegrityPayload.Algorithm,
+		ConfidentialityAlgorithm: openSessionRsp.ConfidentialityPayload.Algorithm,
+	}); confirmed != *cipherSuite {
+		return nil, fmt.Errorf("managed system selected cipher suite %v, but %v was proposed",
+			confirmed, *cipherSuite)
+	}
+
 	// RAKP Message 1, 2
 	remoteConsoleRandom := [16]byte{}
 	if _, err := rand.Read(remoteConsoleRandom[:]); err != nil {
